@@ -83,6 +83,9 @@ def method_specs(tier, rnd):
     for recv, _ in RECEIVERS:
         for asy in ('sync', 'async'):
             specs.append(dict(recv=recv, params=[], ret='owned', asy=asy, provided=True, unmock='none'))
+    # provided methods with an empty body (unit return), every receiver
+    for recv, _ in RECEIVERS:
+        specs.append(dict(recv=recv, params=['copy'] if recv in ('ref', 'mut') else [], ret='unit', asy='sync', provided=True, unmock='none'))
     # every position of every &mut kind for arity 3
     for recv, _ in RECEIVERS[:3]:
         for pos in range(3):
@@ -110,7 +113,7 @@ def method_specs(tier, rnd):
         out.append(s)
     rnd.shuffle(out)
     # the named sub-products are kept in full; the rest fills up to the limit
-    named = [s_ for s_ in out if s_['asy'] == 'rpit' or (s_['provided'] and not s_['params']) or 'mutref_named' in s_['params']]
+    named = [s_ for s_ in out if s_['asy'] == 'rpit' or (s_['provided'] and not s_['params']) or 'mutref_named' in s_['params'] or (s_['provided'] and s_['ret'] == 'unit' and s_['asy'] == 'sync')]
     rest = [s_ for s_ in out if s_ not in named]
     out = named + rest
     limit = 300 if tier == 'quick' else 1300
@@ -133,6 +136,8 @@ def render_method(s, mname, tname, idx):
         # hygiene: every fifth method names its parameters like identifiers the expansion uses for its own bindings
         pname = HYGIENE_NAMES[i] if (idx % 5 == 2 and i < len(HYGIENE_NAMES)) else 'p%d' % i
         ps.append((pname, k, ty))
+    if s.get('tgen_param') and len(ps) < 5:
+        ps.append(('p%d' % len(ps), 'tgen', '&TG'))      # an argument typed by the trait's own type parameter
     ret_ty = RETURNS[s['ret']][0]
     g = '<%s>' % ', '.join(dict.fromkeys(generics)) if generics else ''
     sig_params = ', '.join([recv_txt] + ['%s: %s' % (n, t) for n, _, t in ps])
@@ -151,6 +156,8 @@ def render_method(s, mname, tname, idx):
     if s['provided']:
         if s['asy'] == 'rpit':
             body = ' { async move { unimplemented!() } }'
+        elif s['ret'] == 'unit' and s['asy'] == 'sync':
+            body = ' {}'      # (a provided method whose default body is empty is still a provided method)
         else:
             body = ' { unimplemented!() }'
     else:
@@ -185,7 +192,7 @@ def render_trait(t):
     any_unmock = any(m['unmock'] in ('path', 'args') for m in t['methods'])
     for j, m in enumerate(t['methods']):
         mname = 'm%d' % j
-        sig, ps = render_method(m, mname, name, j)
+        sig, ps = render_method(dict(m, tgen_param=t['trait_generic'] and m['asy'] == 'sync'), mname, name, j)
         entry = None
         um = m['unmock']
         if not any_unmock:
@@ -221,11 +228,15 @@ def render_trait(t):
     if any_unmock:
         attrs.append('unmock_with=[%s]' % ', '.join(unmock_entries))
     tg = '<TG: \'static + std::fmt::Debug + Send + Sync>' if t['trait_generic'] else ''
+    tg_where = ''
+    if t['trait_generic'] and t['idx'] % 10 == 9:
+        # the same bounds written in a where clause
+        tg, tg_where = '<TG>', ' where TG: \'static + std::fmt::Debug + Send + Sync'
     lines.append('pub mod %s {' % t['mod'])
     lines.append('    use unimock::*;')
     lines.append('    pub struct Ctx<\'a>(pub &\'a mut u8);')
     lines.append('    #[unimock(%s)]' % ', '.join(attrs))
-    lines.append('    pub trait %s%s {' % (name, tg))
+    lines.append('    pub trait %s%s%s {' % (name, tg, tg_where))
     for k, m in enumerate(methods):
         if static_at == k:
             lines.append('        fn version() -> u32 where Self: Sized { 1 }')
